@@ -136,6 +136,7 @@ type BedConfig struct {
 	Cluster           *fakecass.Cluster // reuse an existing cluster (several proxies on one backend)
 	Log               *mon.Log
 	ReconnectPolicy   proxycore.ReconnectPolicy
+	RetryPolicy       proxy.RetryPolicy // nil = the proxy's default policy
 	Logger            *zap.Logger
 	BackendMaxVersion primitive.ProtocolVersion
 	Unlisted          []int // hosts that exist (listen) but are not in the peers table when the proxy starts
@@ -219,6 +220,7 @@ func NewBed(cfg BedConfig) (*Bed, error) {
 		Peers:             cfg.Peers,
 		IdempotentGraph:   cfg.IdempotentGraph,
 		PreparedCache:     cfg.PreparedCache,
+		RetryPolicy:       cfg.RetryPolicy,
 	}
 	if pc.Logger == nil && os.Getenv("VERIF_PROXY_DEBUG") != "" {
 		pc.Logger, _ = zap.NewDevelopment()
